@@ -88,6 +88,7 @@ func runC07(p *core.Program, r *core.Report) {
 	r.Rule("C07.textnum", "integers carried as text are formatted/parsed with matching helpers (no string(int) conversion, no width change)", 1)
 
 	pairs, _ := discoverPairs(p, x, []string{"lang/pack/udp"})
+	x.StrictOmission = true
 	runPairs(p, x, r, pairs, pairRules{"C07.gates", "C07.fields", "C07.countlink"}, tierDepth(r))
 	reg := checkRegistry(p, r, "C07.registry", "lang/pack/udp", "CreatePack", "UdpPack", "GetPackType")
 	c07Pools(p, r, reg)
